@@ -68,7 +68,17 @@ def _check_structure(rec, case, mats, rng, sig):
     sig = dict(sig, L=L, square=all(A.shape[0] == A.shape[1] for A in mats))
     def bad(what, **w):
         rec.violation(dict(sig, oracle=what), case, w)
-    ok, S = guarded(rec, case, dict(sig, route='from_kronecker'), mlmatrix.MLStructure.from_kronecker, [scipy.sparse.csr_matrix(A) for A in mats])
+    # the per-level matrices arrive in any scipy format: CSR lists its nonzeros row by row, CSC column by column, COO in any order;
+    # the compact layout follows the listing, whatever it is (the references below are derived from S.bidx)
+    def _fmt(A):
+        z = rng.random()
+        if z < 0.6: return scipy.sparse.csr_matrix(A)
+        if z < 0.8: return scipy.sparse.csc_matrix(A)
+        C = scipy.sparse.coo_matrix(A); perm = rng.permutation(C.nnz)
+        return scipy.sparse.coo_matrix((C.data[perm], (C.row[perm], C.col[perm])), shape=C.shape)
+    lev = [_fmt(A) for A in mats]
+    sig = dict(sig, level_listing='row-major' if all(m_.format == 'csr' for m_ in lev) else 'other')
+    ok, S = guarded(rec, case, dict(sig, route='from_kronecker'), mlmatrix.MLStructure.from_kronecker, lev)
     if not ok: return
     if S.shape != K.shape or S.L != L or tuple(S.bs) != tuple(tuple(A.shape) for A in mats):
         bad('structure shape/levels', shape=list(S.shape)); return
@@ -169,6 +179,22 @@ def _check_structure(rec, case, mats, rng, sig):
         It, Jt = St.nonzero()
         if St.shape != (N, M) or set(zip(np.asarray(It).tolist(), np.asarray(Jt).tolist())) != set(zip(J_ref.tolist(), I_ref.tolist())):
             bad('transpose structure')
+        else:
+            # the transposed structure is a structure like any other: data layout, conversion and product
+            ok2, Xt = guarded(rec, case, dict(sig, route='transpose.make_mlmatrix'), St.make_mlmatrix, matrix=K.T.copy())
+            if ok2:
+                rec.count('oracle:transposed_structure_matrix')
+                It, Jt = np.asarray(It), np.asarray(Jt)
+                if not np.array_equal(np.asarray(Xt.data).ravel(), K.T[It, Jt]):
+                    bad('transposed structure: compact data tensor = entries in the order of nonzero()')
+                ok3, At = guarded(rec, case, dict(sig, route='transpose.asmatrix'), Xt.asmatrix)
+                if ok3 and not np.array_equal(At.toarray(), K.T):
+                    bad('transposed structure: asmatrix equals the transposed Kronecker product')
+                xt = rng.standard_normal(M)
+                ok3, yt = guarded(rec, case, dict(sig, route='transpose.matvec'), Xt.dot, xt)
+                if ok3:
+                    rec.check_close('matvec', float(np.abs(np.asarray(yt) - K.T @ xt).max()), float(1e-13 * (np.abs(K.T) @ np.abs(xt)).max() + 1e-300),
+                                    dict(sig, route='transpose.matvec'), case)
     # partial Kronecker products
     sp = [scipy.sparse.csr_matrix(A) for A in mats]
     rows = rng.permutation(M)[:int(rng.integers(0, M + 1))]
